@@ -36,10 +36,13 @@ COMBOS = [
     (600, 3.0, 3.0),
     (3600, 0.5, 0.5),
 ]
+# thresholds many orders of magnitude away from ordinary values (dyadic, so
+# that every product and sum stays exact)
+EXTREME = [(3600, 2.0 ** -30, 2.0 ** -30), (1800, 2.0 ** 30, 2.0 ** 31)]
 
 
 def selftest():
-    for dt, s, j in COMBOS:
+    for dt, s, j in COMBOS + EXTREME:
         exact = Fraction(j) * Fraction(dt, 3600)
         if Fraction(float(j) * (dt / 3600.)) != exact:
             raise InternalError('threshold product inexact for %r' % (
